@@ -25,6 +25,40 @@ class FaultySink:
         self.chunks.append(bytes(b))
         return len(b)
 
+    # a long-lived sink offers more than write(): record whether a writer ever uses any of it (closing, seeking,
+    # truncating or inspecting the caller's stream is not "appending through sequential write calls")
+    def _touch(self, name):
+        self.__dict__.setdefault("touched", []).append(name)
+
+    def close(self):
+        self._touch("close")
+
+    def flush(self):
+        self._touch("flush")
+
+    def seek(self, *a):
+        self._touch("seek")
+        return 0
+
+    def tell(self):
+        self._touch("tell")
+        return 0
+
+    def truncate(self, *a):
+        self._touch("truncate")
+        return 0
+
+    def getvalue(self):
+        self._touch("getvalue")
+        return b""
+
+    def getbuffer(self):
+        self._touch("getbuffer")
+        return memoryview(b"")
+
+    def writelines(self, lines):
+        self._touch("writelines")
+
 
 class FaultySource:
     def __init__(self, data, fail_at):
@@ -74,11 +108,14 @@ def main():
             sink = FaultySink(op[3] if len(op) > 3 and op[3] is not None else -1)
             try:
                 entity_writer(cls)(sink, inst)
-                return ["ok", b"".join(sink.chunks).hex(), sink.n]
+                out = ["ok", b"".join(sink.chunks).hex(), sink.n]
             except OSError:
-                return ["fault", b"".join(sink.chunks).hex(), sink.n]
+                out = ["fault", b"".join(sink.chunks).hex(), sink.n]
             except Exception as e:  # noqa
-                return ["err", cc.err_name(e), b"".join(sink.chunks).hex()]
+                out = ["err", cc.err_name(e), b"".join(sink.chunks).hex()]
+            if getattr(sink, "touched", None):
+                return ["touched-sink", sorted(set(sink.touched)), out[0]]
+            return out
         if kind == "r":
             data = bytes.fromhex(op[2])
             src = FaultySource(data, op[3] if len(op) > 3 and op[3] is not None else -1)
